@@ -8,6 +8,10 @@ ASAN_ENV = {
     "ASAN_OPTIONS": "allocator_may_return_null=1:detect_leaks=0:abort_on_error=0:exitcode=66:"
                     "max_allocation_size_mb=4096:malloc_context_size=3",
     "UBSAN_OPTIONS": "print_stacktrace=0:halt_on_error=1:exitcode=66",
+    # the real library runs in a time zone that is not UTC, has a half-hour offset and half-hour daylight saving: every
+    # stored and returned time is UTC by the property's text, so nothing may depend on this (a localtime()/mktime()
+    # slipped into a conversion would); the Model has no notion of a time zone
+    "TZ": "Australia/Lord_Howe",
 }
 
 
